@@ -11,7 +11,7 @@ def prop( pid, rules, decides, not_decided, technique, thorough_rules=(), assump
                        assumptions=list( assumptions ))
 
 
-prop( 'C05', [ 'S-STATUS', 'D-VALIDATE', 'W-ATTR', 'T-ALLOWED', 'T-TYPENAMES', 'K-KEYPASS', 'G-INIT', 'D-PATHSTOP', 'L-TEXTCODEC', 'D-UNPACKFMT', 'T-TYPEDLOOP', 'D-OWNPATH', 'T-SYMBOL' ],
+prop( 'C05', [ 'S-STATUS', 'D-VALIDATE', 'W-ATTR', 'T-ALLOWED', 'T-TYPENAMES', 'K-KEYPASS', 'G-INIT', 'D-PATHSTOP', 'L-TEXTCODEC', 'D-UNPACKFMT', 'T-TYPEDLOOP', 'D-OWNPATH', 'T-SYMBOL', 'W-PRINT' ],
       decides='T-SYMBOL: the canonical form of a tag name is its lower-case spelling ( no case folding that maps distinct ISO-8859-1 names onto one symbol ), so a request naming an unknown tag cannot resolve to a configured one.  T-TYPEDLOOP as for C01.  D-VALIDATE also: the WHOLE requested extent ( path index + elements ) is asserted to lie inside the tag for reads and writes alike, ahead of any fragment being served or stored.  D-OWNPATH: in Object.request and Logix.request every access to the handler\'s own attributes is dominated by the assertion that the request path names this object (class and instance of resolve( data.path )): a request for an unknown object is refused, never served from or stored into the attribute of the same number.  L-TEXTCODEC: per codec class the producer encodes text with the character set its parser decodes with (an accepted STRING / SSTRING write stays readable and reads back equal).  D-UNPACKFMT: Set Attribute Single converts EVERY received element with the Attribute\'s own struct format (on every path to the store), so the stored values are in the tag type\'s range and the tag stays readable.  D-PATHSTOP (unknown-tag clause): device.resolve never skips a SYMBOLIC path segment - its skip test is false on every symbolic cell of the decision table and skipping is per segment ( continue, not break ), so a name behind a resolved tag ( A.foo, A[1].foo ) is resolved or refused, not served from A.  S-STATUS: typestate of data.status over the statement CFG of every CIP request handler - at every statement inside '
               'the try that may raise, the status is a known non-success constant (so a refused request is answered with a failure), '
               'the handler never re-raises or resets it, and at the named program points of Logix.request the codes are 0x05 (resolve/lookup), '
@@ -27,7 +27,7 @@ prop( 'C05', [ 'S-STATUS', 'D-VALIDATE', 'W-ATTR', 'T-ALLOWED', 'T-TYPENAMES', '
       not_decided='that values read back equal the converted values written (value/history dependent).',
       technique='constant typestate on a statement CFG with exception edges; dominance / must-pass-through with correlated branches; service feasibility by test folding; table interval containment' )
 
-prop( 'C12', [ 'T-CLIENT-TYPES', 'P-BUNDLE', 'P-FRESH', 'T-PATHSYNTAX', 'S-COMPLETE', 'T-OPOFFSET', 'T-PATHDEFAULTS', 'F-CLIENT', 'T-OPVALUES' ],
+prop( 'C12', [ 'T-CLIENT-TYPES', 'P-BUNDLE', 'P-FRESH', 'T-PATHSYNTAX', 'S-COMPLETE', 'T-OPOFFSET', 'T-PATHDEFAULTS', 'F-CLIENT', 'T-OPVALUES', 'K-TIMEOUT' ],
       decides='T-OPVALUES: the effective options of the reader that splits a write\'s value list are comma separator, double-quote quoting and skipinitialspace (blank-padded lists mean the values they spell).  T-PATHSYNTAX also: format_path emits an element index at the component it follows (the symbolic branch flushes a pending index), so Foo[1].Boo formats and parses back to the same segments.  P-BUNDLE: in connector.issue the keep-collecting condition conjoins the size test with equality of both route_path and '
               'send_path with those of the bundle, every yielded record carries ( index, sender_context ) of its wire request, sender_context is '
               'always derived from index, and index advances at most once per operation and after every flushed bundle; T-PATHSYNTAX: every '
@@ -133,7 +133,7 @@ prop( 'C18', [ 'T-RECORD', 'H-PARSE', 'H-FILES', 'H-NATURAL', 'H-OPENER', 'H-PAC
       technique='writer/reader field-table agreement (AST patterns); forward data-flow and path counting over a statement CFG of '
                 'parse_record / reader.open / loader.load; typestate (finite abstract-state sets to a fixpoint) for the strict flag; decision-table evaluation of the file-selection predicates; state-table exhaustiveness' )
 
-prop( 'C04', [ 'F-FRAG', 'F-STATUS', 'D-VALIDATE', 'W-ATTR', 'S-EXT', 'F-CLIENT', 'T-TYPEDLOOP' ],
+prop( 'C04', [ 'F-FRAG', 'F-STATUS', 'D-VALIDATE', 'W-ATTR', 'S-EXT', 'F-CLIENT', 'T-TYPEDLOOP', 'L-SPEC' ],
       decides='T-TYPEDLOOP: in the typed_data grammar every element loop is closed on its own type (the collector behind TYPE() takes .TYPE and returns to the head that leads to TYPE()), so the second and later elements of a fragment are parsed with the type of the first.  the form of the fragment arithmetic, by algebra on a linear normal form and by structure, never by evaluating it on sample '
               'numbers.  F-FRAG (Logix.reply_elements): the byte offset is split into quotient and remainder by the element size '
               '( off // siz, off - q * siz | off % siz | divmod ), siz = attribute.parser.struct_calcsize, the offset is honoured for the '
@@ -214,7 +214,7 @@ prop( 'C08', [ 'G-PROGRESS', 'G-BOUND', 'G-REF', 'R-PROGRESS', 'R-LIMIT', 'E-CON
       not_decided='wall-clock bounds, recursion depth of nested bundles, memory, that other sessions keep being served (scheduling).',
       technique='SCC/cycle analysis with a consumption model over extracted grammar graphs; reference resolution; CFG typestate; zero-count call rules' )
 
-prop( 'C10', [ 'G-BOUND', 'G-REF', 'R-LIMIT', 'R-SENT', 'R-REPEAT', 'G-PRIMS', 'G-LIMITS' ],
+prop( 'C10', [ 'G-BOUND', 'G-REF', 'R-LIMIT', 'R-SENT', 'R-REPEAT', 'G-PRIMS', 'G-LIMITS', 'G-GATE', 'T-SEGMENTS' ],
       decides='G-LIMITS: every CPF item parser and every CIP command parser created from the dispatch tables carries the constant limit naming the length parsed ahead of it ( no sibling exempted ), and no limit is hung on a state that consumes nothing.  G-BOUND: every unbounded consumer (element loop, ".*" string, raw-to-end payload) of every run-root machine lies inside a '
               'limit naming a parsed length or a constant, or is the tail of a machine run on a finite buffer (one documented exemption: '
               'the unrecognised CPF item, which is not given a limit); G-REF: each of the ~1250 data-path references in limit=/repeat=/'
@@ -241,7 +241,7 @@ prop( 'C09', [ 'R-LOCK-1', 'R-LOCK-6', 'R-LOCK-2', 'R-LOCK-3', 'R-LOCK-4', 'R-LO
       technique='lock-set style who-holds-what rules over call sites (AST + dominance); field-to-lock tables',
       thorough_rules=[] )
 
-prop( 'C13', [ 'S-COMPLETE', 'P-MATCH', 'P-FRESH', 'P-BUNDLE', 'P-DISCARD', 'P-ACT', 'N-RECV', 'P-GATEWAY', 'P-ROUTE', 'T-CONTEXT', 'P-POLL' ],
+prop( 'C13', [ 'S-COMPLETE', 'P-MATCH', 'P-FRESH', 'P-BUNDLE', 'P-DISCARD', 'P-ACT', 'N-RECV', 'P-GATEWAY', 'P-ROUTE', 'T-CONTEXT', 'P-POLL', 'K-TIMEOUT' ],
       decides='P-GATEWAY also: proxy.close_gateway stores gateway = None on every path from close(), including those on which close() raises (a connected gateway raises on a dead connection).  P-MATCH also: every index_to_sender_context derives the context from the request index (client.implicit\'s constant context is known finding AA).  P-ACT also: client.__next__ never enters its framing engine on the branch where the non-blocking receive returned nothing.  S-COMPLETE (sibling cross-check): every harvesting driver operate() can return (synchronous, pipeline) compares, after its '
               'harvest loop, a counter fed by the issue stream with a counter fed by the harvested results and raises on a mismatch - so '
               'the client can never silently return fewer results than operations; P-MATCH: in harvest every yield is dominated by an assert '
@@ -268,7 +268,7 @@ prop( 'C15', [ 'B-ROUTE', 'D-REFUSE', 'C-MAIN', 'S-STATUS', 'T-SEGMENTS', 'P-BUN
       not_decided='textual route-path parsing (string -> segments) over all strings.',
       technique='exhaustive evaluation of a boolean AST over a finite abstract domain (decision-table check); dominance on the CFG' )
 
-prop( 'C01', [ 'T-TYPES', 'L-AGREE', 'L-DEFAULT', 'L-CODEC', 'T-SEGMENTS', 'T-NCP', 'K-NCPSTATE', 'A-OFFSETS', 'G-FRAME', 'L-SPEC', 'X-SERVICES', 'G-PRIMS', 'G-INIT', 'K-STALEMEMO', 'K-FOWIDTH', 'L-FRESH', 'L-PADSIZE', 'L-TEXTCODEC', 'T-TYPEDLOOP' ],
+prop( 'C01', [ 'T-TYPES', 'L-AGREE', 'L-DEFAULT', 'L-CODEC', 'T-SEGMENTS', 'T-NCP', 'K-NCPSTATE', 'A-OFFSETS', 'G-FRAME', 'L-SPEC', 'X-SERVICES', 'G-PRIMS', 'G-INIT', 'K-STALEMEMO', 'K-FOWIDTH', 'L-FRESH', 'L-PADSIZE', 'L-TEXTCODEC', 'T-TYPEDLOOP', 'L-SOCKADDR' ],
       decides='T-TYPEDLOOP: every element loop of typed_data is closed on its own type.  L-TEXTCODEC: per codec class the character set of .encode() in the producer equals decode= of its parser.  L-FRESH: inside every loop of a produce() a local assigned in the loop is assigned on every path of the iteration before it is read (accumulators excepted) - no element of a repetition is emitted with the value computed for the element before it.  L-PADSIZE: a size field counted in words of a padded payload is computed from the payload AFTER the pad has been appended (every path from the pad to the emission of the size passes the size computation, never the reverse).  layout-agreement clauses.  T-TYPES: every CIP scalar class has the spec\'s (type code, width, signedness, little-endian byte order), '
               'TYPE.produce packs and state_struct unpacks with the class format, TYPES_SUPPORTED and the 14-row typed_data dispatch are '
               'consistent; L-AGREE: for each of the 24 registered service machines, every layout variant the producer branch can emit '
@@ -287,7 +287,7 @@ prop( 'C01', [ 'T-TYPES', 'L-AGREE', 'L-DEFAULT', 'L-CODEC', 'T-SEGMENTS', 'T-NC
                 'acceptance matching; spec-table comparison; linear normalisation' )
 
 prop( 'C14', [ 'L-SPEC', 'K-FORWARDS', 'L-AGREE', 'L-DEFAULT', 'L-CODEC', 'T-TYPES', 'T-SEGMENTS', 'T-NCP', 'K-NCPSTATE', 'A-OFFSETS', 'G-FRAME',
-               'S-STATUS', 'D-VALIDATE', 'W-ATTR', 'T-ALLOWED', 'T-ATTRKEYS', 'D-TYPE', 'X-SERVICES', 'P-REPLYBIT', 'S-EXT', 'G-INIT', 'K-STALEMEMO', 'F-STATUS', 'F-FRAG', 'K-FOWIDTH', 'L-FRESH', 'L-PADSIZE', 'L-TEXTCODEC', 'T-TYPENAMES', 'T-TYPEDLOOP', 'L-SPECTEXT' ],
+               'S-STATUS', 'D-VALIDATE', 'W-ATTR', 'T-ALLOWED', 'T-ATTRKEYS', 'D-TYPE', 'X-SERVICES', 'P-REPLYBIT', 'S-EXT', 'G-INIT', 'K-STALEMEMO', 'F-STATUS', 'F-FRAG', 'K-FOWIDTH', 'L-FRESH', 'L-PADSIZE', 'L-TEXTCODEC', 'T-TYPENAMES', 'T-TYPEDLOOP', 'L-SPECTEXT', 'L-IDENT', 'L-SOCKADDR', 'P-EACH' ],
       decides='L-SPECTEXT: the fixed-width text field of the ListServices reply item ( name of service, 16 octets NUL padded ) is produced at the width the encapsulation specification states ( known finding AR: it is not ).  T-TYPENAMES / T-TYPEDLOOP as for C05 / C01.  spec-layout clause.  L-SPEC: for the messages an independent Logix client uses (Register Session, SendRRData/SendUnitData with '
               'null-address/unconnected and connection-id/connected-data items, Unconnected Send, Forward Open small and large, Forward '
               'Close, Read/Write Tag [Fragmented], Multiple Service Packet, Get/Set Attribute, List Identity item) the parser layout '
